@@ -35,7 +35,8 @@ OID = ['o10', 'o9', 'o2', 'o1']
 SID = ['s2', 's10', 's3', 's1']
 POOL = ['a', 'bb', 'o10', 'a_very_long_identifier_x', 'ü']
 LAYOUTS = ['csr', 'csc', 'unsorted']
-REORDER_OPS = ('sort', 'rev', 'rot', 'transpose', 'copy', 'align', 'rename_long', 'rename_partial')
+REORDER_OPS = ('sort', 'rev', 'rot', 'transpose', 'copy', 'align', 'align_detect', 'rename_long',
+               'rename_partial', 'rename_swap', 'rename_rot')
 
 
 def make(case):
@@ -103,7 +104,7 @@ def check(case, acc, tmp):
 
     def judge(r, exp, what, ignore_type=False, **kw):
         acc.evals += 1
-        d = diff(r, exp, ignore_type=ignore_type)
+        d = diff(r, exp, ignore_type=ignore_type, by_id=True)
         if d is not None:
             bad(what, '%s: %s' % (what, d), **kw)
             return False
@@ -174,6 +175,20 @@ def check(case, acc, tmp):
                 except Exception as e:
                     bad('update_ids:raised', 'inverse renaming raised %s: %s' % (type(e).__name__, e),
                         axis=ax, mapping=mp, inplace=inpl)
+            # renamings onto the axis' own ids (swaps, rotations, chains): every permutation
+            for perm in itertools.permutations(range(n)):
+                mp = {ids[k]: ids[perm[k]] for k in range(n)}
+                for strict_flag in (True, False):
+                    t, _ = make(case)
+                    acc.trans += 1
+                    try:
+                        r = t.update_ids(dict(mp), axis=ax, strict=strict_flag, inplace=inpl)
+                    except Exception as e:
+                        bad('update_ids:raised', 'permutation renaming %r raised %s: %s' % (mp, type(e).__name__, e),
+                            axis=ax, mapping=mp, inplace=inpl)
+                        continue
+                    judge(r, m0.update_ids(ax, mp, True), 'update_ids:permutation', axis=ax, mapping=mp,
+                          inplace=inpl, strict=strict_flag)
             # partial renamings, strict=False (incl. an unknown key), and the empty mapping
             for r_ in range(0, n):
                 for sub in itertools.combinations(ids, r_):
